@@ -78,6 +78,9 @@ def classify_consumers(F, ev, body, call_block, local, cons, roles, depth):
                     d = c["term"]["dest"]
                     if d["proj"]:
                         return False, "stored", "converted result stored into a projected place"
+                    if d["l"] == 0:
+                        hows.append(m + "→returned")   # handed to the caller as an absent value
+                        continue
                     sub = consumers(body, d["l"])
                     ok, how, msg = classify_consumers(F, ev, body, call_block, d["l"], sub, roles, depth + 1)
                     if not ok:
@@ -199,21 +202,21 @@ def failure_edge_is_absent(F, ev, body, sw_block, fail_target, ok_targets, roles
         if fail_target not in none_blocks and any(e in r2 for e in exits):
             return False, "a path from the failure edge reaches return without emptying the cache"
         return True, ""
-    # (b) return value must be absent on every path from the failure edge
-    env = Env(body)
-    for e in body.exits():
-        if e not in reach:
-            continue
-    # path-restricted evaluation: value of _0 at exits reachable only from fail_target
+    # (b) the function has no cache to empty: on every path *through the failure edge* it must
+    # return an absent value. Path restriction: the backward walk may enter the region reachable
+    # from the failure target only through the failure edge itself.
+    region = body.reachable(fail_target)
+    exits = [e for e in body.exits() if e in region]
+    if not exits:
+        return True, ""   # the failure edge diverges / never returns normally
     env2 = Env(body)
-    v = ev._lookup_in_block(env2, (0, ()), [e for e in body.exits() if e in reach][0], None, frozenset()) if [e for e in body.exits() if e in reach] else ("unreachable",)
-    alts = v[1] if v[0] == "phi" else (v,)
-    # flow-insensitive approximation is not exact here -> undetermined unless all alternatives are absent
-    for a in alts:
-        if a[0] == "none" or (a[0] == "agg" and a[2] in ("Err", "None")) or a[0] in ("from_residual", "unreachable"):
-            continue
-        return False, "cannot establish that the failure edge returns an absent value (undetermined)"
-    return True, ""
+    env2.pred_filter = lambda p, b, region=region: not (b in region and p not in region and (p, b) != (sw_block, fail_target))
+    env2.exit_filter = lambda e, region=region: e in region
+    ev2 = Eval(F, opaque=ev.opaque)
+    v = ev2.ret_val(env2)
+    if is_absent_value(v):
+        return True, ""
+    return False, "on the failure edge the function returns `%s`, not an absent value" % short(v)[:120]
 
 
 def rule_err_discipline(F, ev, R, config, rule="R-ERR-DISCIPLINE"):
